@@ -138,7 +138,7 @@ func collectSymbols(text string, into map[string]bool) {
 }
 
 // declsFor returns the declarations (and triggered axioms) needed by body.
-func declsFor(body string) (decls string, axs string) {
+func declsFor(body string, level int) (decls string, axs string) {
 	used := map[string]bool{}
 	collectSymbols(body, used)
 	var axOut []string
@@ -148,6 +148,12 @@ func declsFor(body string) (decls string, axs string) {
 		for _, a := range axioms {
 			if included[a.key] {
 				continue
+			}
+			if level >= 0 && level%10 <= 1 && strings.HasPrefix(a.key, "heapwf ") {
+				continue // closed-world heap axioms only from relevance level 2 on
+			}
+			if level >= 10 && strings.HasPrefix(a.key, "def ") {
+				continue // levels 10+: definitions of pure spec functions stay hidden (opaque)
 			}
 			for _, t := range a.triggers {
 				if used[t] {
@@ -423,15 +429,74 @@ func (s *State) setHeap(name string, v T) {
 }
 
 func (s *State) fieldHeap(st types.Type, l leaf) T {
-	return s.heap(fieldHeapName(st, l.name()), arraySort(SInt, sortOf(l.typ)))
+	n := fieldHeapName(st, l.name())
+	registerHeapWF(n, l.typ, false)
+	return s.heap(n, arraySort(SInt, sortOf(l.typ)))
 }
 
 func (s *State) cellHeap(t types.Type) T {
+	registerHeapWF(cellHeapName(t), t, false)
 	return s.heap(cellHeapName(t), arraySort(SInt, sortOf(t)))
 }
 
 func (s *State) arrHeap(elem types.Type) T {
+	registerHeapWF(arrHeapName(elem), elem, true)
 	return s.heap(arrHeapName(elem), arraySort(SInt, arraySort(SInt, sortOf(elem))))
+}
+
+// entryNextSym is the allocation counter at function entry as a symbol usable in
+// background axioms (each function verification assumes its value).
+func entryNextSym() T { return declConst("entry.next", SInt) }
+
+// allocatedFact: every reference stored in a value of type t was allocated before `bound`.
+func allocatedFact(t types.Type, v T, bound T, depth int) T {
+	if depth > 3 {
+		return mkBool(true)
+	}
+	switch u := t.Underlying().(type) {
+	case *types.Pointer, *types.Map, *types.Signature, *types.Chan:
+		return and(app(SBool, "<=", mkInt(0), v), app(SBool, "<", v, bound))
+	case *types.Slice:
+		return app(SBool, "<", sliceArr(v), bound)
+	case *types.Interface:
+		return app(SBool, "<", ifacePl(v), bound)
+	case *types.Struct:
+		var fs []T
+		for i := 0; i < u.NumFields(); i++ {
+			fs = append(fs, allocatedFact(u.Field(i).Type(), structField(t, v, i), bound, depth+1))
+		}
+		return and(fs...)
+	}
+	return mkBool(true)
+}
+
+var heapWFSeen = map[string]bool{}
+
+// registerHeapWF adds the closed-world axiom for the entry contents of a heap:
+// references stored in objects that exist at function entry point to objects
+// allocated before entry (Go has no dangling or forged pointers).
+func registerHeapWF(name string, t types.Type, isArr bool) {
+	if heapWFSeen[name] {
+		return
+	}
+	heapWFSeen[name] = true
+	h := quoteSym(name)
+	bound := entryNextSym()
+	if isArr {
+		e := T{"(select (select " + h + " r) i)", sortOf(t)}
+		f := allocatedFact(t, e, bound, 0)
+		if f.S == "true" {
+			return
+		}
+		addAxiom("heapwf "+name, []string{h}, fmt.Sprintf("(forall ((r Int) (i Int)) (! %s :pattern ((select (select %s r) i))))", f.S, h))
+		return
+	}
+	e := T{"(select " + h + " r)", sortOf(t)}
+	f := allocatedFact(t, e, bound, 0)
+	if f.S == "true" {
+		return
+	}
+	addAxiom("heapwf "+name, []string{h}, fmt.Sprintf("(forall ((r Int)) (! %s :pattern ((select %s r))))", f.S, h))
 }
 
 func (s *State) mapDom(m types.Type) T {
